@@ -512,7 +512,8 @@ def mc_run(spec, cfg_text, workdir, tag, workers=8, timeout=3000, xmx="6g", want
     os.makedirs(tmp, exist_ok=True)
     env = dict(os.environ)
     env["JAVA_TOOL_OPTIONS"] = "-Xss64m -Djava.io.tmpdir=%s" % tmp
-    cmd = ["java", "-XX:+UseParallelGC", "-XX:ParallelGCThreads=4", "-Xmx" + xmx, "-cp", TLC_CP, "tlc2.TLC", "-workers", str(workers), "-metadir", md,
+    # (-Xss on the command line too: initial states are computed on the main thread, whose stack JAVA_TOOL_OPTIONS does not size)
+    cmd = ["java", "-Xss256m", "-XX:+UseParallelGC", "-XX:ParallelGCThreads=4", "-Xmx" + xmx, "-cp", TLC_CP, "tlc2.TLC", "-workers", str(workers), "-metadir", md,
            "-cleanup", "-noGenerateSpecTE", "-config", cfg, os.path.join(SPEC, spec + ".tla")]
     t0 = time.time()
     try:
